@@ -444,3 +444,556 @@ Proof.
     pose proof (existsb_false_in _ _ w K2 Hw) as E. cbn beta in E. apply negb_false_iff in E. exact E. }
   destruct (all_same_ok _ m A) as (A1 & A2). rewrite A1, A2. reflexivity.
 Qed.
+
+(* ------------------------------------------------------------------------------------------ *)
+(* the conversions against 8.3.1 / 8.3.2 / 8.5 *)
+
+Definition bad_request_ps (P : pseudo) : bool :=
+  is_some (p_status P) || negb (is_some (p_method P)) ||
+  (if value_is "CONNECT" (p_method P) && negb (is_some (p_protocol P)) then
+     is_some (p_scheme P) || is_some (p_path P) || negb (is_some (p_authority P))
+   else
+     negb (is_some (p_scheme P)) || negb (is_some (p_path P)) || value_is "" (p_path P) ||
+     (is_some (p_protocol P) && negb (value_is "CONNECT" (p_method P)))).
+
+Lemma bad_request_ps_eq fs P :
+  (forall h, h <> HField -> ps_get h P = value_of (pname h) fs) -> bad_request fs = bad_request_ps P.
+Proof.
+  intros H.
+  pose proof (H HStatus ltac:(discriminate)) as H1. pose proof (H HMethod ltac:(discriminate)) as H2.
+  pose proof (H HProtocol ltac:(discriminate)) as H3. pose proof (H HScheme ltac:(discriminate)) as H4.
+  pose proof (H HPath ltac:(discriminate)) as H5. pose proof (H HAuthority ltac:(discriminate)) as H6.
+  cbn [pname ps_get] in *.
+  unfold bad_request, bad_request_ps. rewrite !has_value_of. rewrite <- H1, <- H2, <- H3, <- H4, <- H5, <- H6.
+  reflexivity.
+Qed.
+
+Lemma lenN_zero (p : list N) : list_N_eqb p [] = (lenN p =? 0).
+Proof.
+  destruct p as [|x r]; [reflexivity|]. unfold lenN. cbn [length list_N_eqb]. symmetry. apply N.eqb_neq. lia.
+Qed.
+
+Lemma convert_request_ok v P fields rq :
+  convert_request v P fields = Some rq -> bad_request_ps P = false /\ p_method P = Some (rq_method rq).
+Proof.
+  unfold convert_request, bad_request_ps. destruct P as [m s a p pr st].
+  cbn [p_method p_scheme p_authority p_path p_protocol p_status].
+  destruct m as [m0|]; [|discriminate]. cbn [value_is is_some].
+  change (octets "CONNECT") with (bstr "CONNECT"). change (octets "") with (@nil N).
+  destruct (list_N_eqb m0 (bstr "CONNECT")) eqn:Ec; destruct pr, st, a, s, p;
+    cbn [is_some negb andb orb value_is uri_from_parts_ok]; try discriminate; try rewrite lenN_zero;
+    intros H;
+    repeat match type of H with
+    | context [if ?b then _ else _] => let E := fresh "E" in destruct b eqn:E; try discriminate H
+    end;
+    (split; [|inversion H; reflexivity]);
+    repeat match goal with
+    | E : (_ || _) = false |- _ => apply orb_false_iff in E; destruct E
+    | E : negb _ = false |- _ => apply negb_false_iff in E
+    end;
+    try reflexivity; try congruence;
+    try (rewrite orb_false_r; assumption).
+Qed.
+
+Lemma status_1xx_num v :
+  status_ok v = true ->
+  (match v with [a; b; c] => (a =? 49) && is_digit b && is_digit c | _ => false end)
+  = (100 <=? status_num v) && (status_num v <? 200).
+Proof.
+  destruct v as [|a [|b [|c [|d r]]]]; cbn [status_ok]; try discriminate.
+  unfold in_range, is_digit, status_num. lia.
+Qed.
+
+Lemma status_of_block max fs b v :
+  load max fs = LOk b -> value_of ":status" fs = Some v -> status_ok v = true.
+Proof.
+  intros H Hv. destruct (load_spec max fs b H) as (V & _).
+  destruct (value_of_in _ _ _ Hv) as (f & Hin & Hn & Hs). specialize (V f Hin).
+  destruct (header_new f) as [h|] eqn:E; [|congruence].
+  destruct (hname_eqb h HField) eqn:Eh.
+  - apply hname_eqb_eq in Eh. subst h. destruct (header_new_field f E) as (A & _).
+    change ":status"%string with (pname HStatus) in Hn. rewrite (regular_not_pname f HStatus A ltac:(discriminate)) in Hn. discriminate.
+  - assert (Hh : h <> HField) by (intros X; subst h; discriminate).
+    destruct (header_new_pseudo f h E Hh) as (A & _ & S & _).
+    change ":status"%string with (pname HStatus) in Hn. rewrite (pseudo_named f h HStatus A Hh) in Hn.
+    apply hname_eqb_eq in Hn. rewrite <- Hs. exact (S Hn).
+Qed.
+
+(* the informational test of the code is the reference's on an accepted block *)
+Lemma informational_ref max fs b :
+  load max fs = LOk b -> b_over b = false -> ps_informational (b_pseudo b) = status_1xx fs.
+Proof.
+  intros H Ho. destruct (load_spec max fs b H) as (_ & _ & _ & _ & _ & O). destruct (O Ho) as (_ & O3).
+  destruct (O3 HStatus ltac:(discriminate)) as (E & _). cbn [ps_get pname] in E.
+  unfold ps_informational, status_1xx. rewrite E. destruct (value_of ":status" fs) as [v|] eqn:Ev; [|reflexivity].
+  rewrite <- (status_1xx_num v (status_of_block max fs b v H Ev)). reflexivity.
+Qed.
+
+Lemma delivers_false_stream k : delivers k StreamError = false. Proof. destruct k; reflexivity. Qed.
+Lemma delivers_false_conn k c : delivers k (ConnError c) = false. Proof. destruct k; reflexivity. Qed.
+Lemma delivers_false_431 k : delivers k Respond431 = false. Proof. destruct k; reflexivity. Qed.
+
+(* a request handed to the application (accept) *)
+Lemma C13_request ext max cl eos v fs hk :
+  cl <> CLHead ->
+  delivers Request (model_head Server ext max cl eos v fs) = true ->
+  malformed_block Server Request hk eos fs = false.
+Proof.
+  intros Hcl. unfold model_head, of_load. destruct (load max fs) as [b| | |] eqn:El; cbn [delivers]; try discriminate.
+  unfold recv_head. destruct (ps_informational (b_pseudo b) && eos); [cbn [fst delivers]; discriminate|].
+  destruct (head_content_length cl eos b) as [cl'|] eqn:Ecl; [|cbn [fst delivers]; discriminate].
+  destruct (b_over b) eqn:Eo; [cbn [fst delivers]; discriminate|].
+  destruct (is_some (p_protocol (b_pseudo b)) && negb ext); [cbn [fst delivers]; discriminate|].
+  destruct (is_some (p_status (b_pseudo b)) && true); [cbn [fst delivers]; discriminate|].
+  destruct (convert_request v (b_pseudo b) (b_fields b)) as [rq|] eqn:Ecv; [|cbn [fst delivers]; discriminate].
+  intros _. destruct (load_spec max fs b El) as (_ & _ & _ & _ & _ & O). destruct (O Eo) as (O2 & O3).
+  unfold malformed_block, malformed. cbn [kind_received_by negb accounted orb andb].
+  rewrite (load_ok_bad_fields max fs b El Eo).
+  rewrite (bad_request_ps_eq fs (b_pseudo b) (fun h Hh => proj1 (O3 h Hh))).
+  rewrite (proj1 (convert_request_ok _ _ _ _ Ecv)).
+  rewrite (head_cl_ok cl eos b fs cl' Ecl Hcl O2). reflexivity.
+Qed.
+
+(* a final response handed to the application *)
+Lemma C13_response ext max cl eos v fs hk :
+  (accounted Response hk = true -> cl <> CLHead) -> has ":status" fs = true ->
+  delivers Response (model_head Client ext max cl eos v fs) = true ->
+  malformed_block Client Response hk eos fs = false.
+Proof.
+  intros Hcl Hst. unfold model_head, of_load. destruct (load max fs) as [b| | |] eqn:El; cbn [delivers]; try discriminate.
+  unfold recv_head. destruct (ps_informational (b_pseudo b) && eos); [cbn [fst delivers]; discriminate|].
+  destruct (head_content_length cl eos b) as [cl'|] eqn:Ecl; [|cbn [fst delivers]; discriminate].
+  destruct (b_over b) eqn:Eo; [cbn [fst delivers]; discriminate|].
+  cbn [andb]. rewrite !andb_false_r.
+  unfold convert_response.
+  destruct (is_some (p_method (b_pseudo b)) || is_some (p_scheme (b_pseudo b)) || is_some (p_authority (b_pseudo b)) ||
+            is_some (p_path (b_pseudo b)) || is_some (p_protocol (b_pseudo b))) eqn:Erq; [cbn [fst delivers]; discriminate|].
+  cbn [fst]. rewrite (informational_ref max fs b El Eo).
+  destruct (status_1xx fs) eqn:E1; [cbn [delivers]; discriminate|]. intros _.
+  destruct (load_spec max fs b El) as (_ & _ & _ & _ & _ & O). destruct (O Eo) as (O2 & O3).
+  unfold malformed_block, malformed. cbn [kind_received_by negb orb].
+  rewrite (load_ok_bad_fields max fs b El Eo), E1. unfold bad_response, request_pseudo. cbn [existsb].
+  rewrite Hst, !has_value_of.
+  pose proof (proj1 (O3 HMethod ltac:(discriminate))) as H2. pose proof (proj1 (O3 HProtocol ltac:(discriminate))) as H3.
+  pose proof (proj1 (O3 HScheme ltac:(discriminate))) as H4. pose proof (proj1 (O3 HPath ltac:(discriminate))) as H5.
+  pose proof (proj1 (O3 HAuthority ltac:(discriminate))) as H6. cbn [pname ps_get] in *.
+  rewrite <- H2, <- H3, <- H4, <- H5, <- H6.
+  repeat (apply orb_false_iff in Erq; destruct Erq as (Erq & ?)).
+  repeat match goal with E : is_some _ = false |- _ => rewrite E; clear E end. cbn [orb negb].
+  destruct (accounted Response hk) eqn:Ea; [|reflexivity].
+  rewrite (head_cl_ok cl eos b fs cl' Ecl (Hcl eq_refl) O2). reflexivity.
+Qed.
+
+(* an interim response handed to the application *)
+Lemma C13_informational ext max cl eos v fs hk :
+  delivers Informational (model_head Client ext max cl eos v fs) = true ->
+  malformed_block Client Informational hk eos fs = false.
+Proof.
+  unfold model_head, of_load. destruct (load max fs) as [b| | |] eqn:El; cbn [delivers]; try discriminate.
+  unfold recv_head. destruct (ps_informational (b_pseudo b) && eos) eqn:Eie; [cbn [fst delivers]; discriminate|].
+  destruct (head_content_length cl eos b) as [cl'|] eqn:Ecl; [|cbn [fst delivers]; discriminate].
+  destruct (b_over b) eqn:Eo; [cbn [fst delivers]; discriminate|].
+  cbn [andb]. rewrite !andb_false_r.
+  unfold convert_response.
+  destruct (is_some (p_method (b_pseudo b)) || is_some (p_scheme (b_pseudo b)) || is_some (p_authority (b_pseudo b)) ||
+            is_some (p_path (b_pseudo b)) || is_some (p_protocol (b_pseudo b))) eqn:Erq; [cbn [fst delivers]; discriminate|].
+  cbn [fst]. rewrite (informational_ref max fs b El Eo) in *.
+  destruct (status_1xx fs) eqn:E1; [|cbn [delivers]; discriminate]. intros _.
+  cbn [andb] in Eie. subst eos.
+  destruct (load_spec max fs b El) as (_ & _ & _ & _ & _ & O). destruct (O Eo) as (O2 & O3).
+  unfold malformed_block, malformed. cbn [kind_received_by negb orb accounted andb].
+  rewrite (load_ok_bad_fields max fs b El Eo), E1. unfold bad_response, request_pseudo. cbn [existsb].
+  assert (Hst : has ":status" fs = true).
+  { rewrite has_value_of. unfold status_1xx in E1. destruct (value_of ":status" fs); [reflexivity|discriminate]. }
+  rewrite Hst, !has_value_of.
+  pose proof (proj1 (O3 HMethod ltac:(discriminate))) as H2. pose proof (proj1 (O3 HProtocol ltac:(discriminate))) as H3.
+  pose proof (proj1 (O3 HScheme ltac:(discriminate))) as H4. pose proof (proj1 (O3 HPath ltac:(discriminate))) as H5.
+  pose proof (proj1 (O3 HAuthority ltac:(discriminate))) as H6. cbn [pname ps_get] in *.
+  rewrite <- H2, <- H3, <- H4, <- H5, <- H6.
+  repeat (apply orb_false_iff in Erq; destruct Erq as (Erq & ?)).
+  repeat match goal with E : is_some _ = false |- _ => rewrite E; clear E end. reflexivity.
+Qed.
+
+(* a promised request handed to the application *)
+Lemma C13_pushed max v fs hk eos :
+  delivers PushedRequest (model_push Client max v fs) = true ->
+  malformed_block Client PushedRequest hk eos fs = false.
+Proof.
+  unfold model_push, of_load. destruct (load max fs) as [b| | |] eqn:El; cbn [delivers]; try discriminate.
+  unfold recv_push. destruct (b_over b) eqn:Eo; [cbn [delivers]; discriminate|].
+  destruct (convert_request v (b_pseudo b) (b_fields b)) as [rq|] eqn:Ecv; [|cbn [delivers]; discriminate].
+  destruct (validate_push (rq_method rq) (b_fields b)) eqn:Ev; [|cbn [delivers]; discriminate]. intros _.
+  destruct (load_spec max fs b El) as (_ & _ & _ & _ & _ & O). destruct (O Eo) as (O2 & O3).
+  destruct (convert_request_ok _ _ _ _ Ecv) as (C1 & C2).
+  unfold malformed_block, malformed. cbn [kind_received_by negb orb accounted andb].
+  rewrite (load_ok_bad_fields max fs b El Eo). unfold bad_pushed_request.
+  rewrite (bad_request_ps_eq fs (b_pseudo b) (fun h Hh => proj1 (O3 h Hh))), C1.
+  pose proof (proj1 (O3 HMethod ltac:(discriminate))) as H2. cbn [pname ps_get] in H2. rewrite <- H2, C2.
+  unfold validate_push in Ev. apply andb_true_iff in Ev. destruct Ev as (Ev1 & Ev2).
+  cbn [value_is]. change (octets "GET") with (bstr "GET"). change (octets "HEAD") with (bstr "HEAD").
+  rewrite Ev2. cbn [negb orb].
+  unfold declared_length. rewrite values_of_regular, <- O2.
+  rewrite first_value_all in Ev1. destruct (all_values cl_name (b_fields b)) as [|w ws]; [reflexivity|].
+  apply opt_N_eqb_some in Ev1. rewrite (parse_u64_decimal w 0 Ev1). reflexivity.
+Qed.
+
+(* a trailer section handed to the application *)
+Lemma C13_trailers r max cl eos fs hk :
+  existsb is_pseudo fs = false ->
+  delivers Trailers (model_trailers max cl eos fs) = true ->
+  malformed_block r Trailers hk eos fs = false.
+Proof.
+  intros Hp. unfold model_trailers, of_load. destruct (load max fs) as [b| | |] eqn:El; cbn [delivers]; try discriminate.
+  unfold recv_trailers. destruct eos; cbn [negb]; [|cbn [fst delivers]; discriminate].
+  destruct (ensure_content_length_zero cl); cbn [negb fst delivers]; [|discriminate]. intros _.
+  destruct (load_spec max fs b El) as (_ & B & C & T & P & _).
+  unfold malformed_block, malformed, bad_fields. rewrite B, C, T, P, Hp.
+  rewrite (no_dup_pseudo fs); [|intros h Hh; rewrite (no_pseudo_occ fs h Hp Hh); lia].
+  destruct r; reflexivity.
+Qed.
+
+(* ------------------------------------------------------------------------------------------ *)
+(* C13, receive side *)
+
+(* the two known deviations, by class: a block handed over as a response that has no :status
+   field (KF-C13-1); a block handed over as trailers that has a pseudo-header field (KF-C13-2) *)
+Definition KnownClass (k : kind) (fs : list field) : Prop :=
+  (k = Response /\ has ":status" fs = false) \/ (k = Trailers /\ existsb is_pseudo fs = true).
+
+Lemma head_server_kind ext max cl eos v fs k :
+  delivers k (model_head Server ext max cl eos v fs) = true -> k = Request.
+Proof.
+  unfold model_head, of_load. destruct (load max fs) as [b| | |];
+    try (rewrite ?delivers_false_stream, ?delivers_false_conn; discriminate).
+  unfold recv_head.
+  repeat match goal with
+  | |- context [if ?c then _ else _] => destruct c
+  | |- context [match ?c with Some _ => _ | None => _ end] => destruct c
+  end; cbn [fst]; rewrite ?delivers_false_stream, ?delivers_false_conn, ?delivers_false_431; try discriminate;
+  destruct k; cbn [delivers]; try discriminate; reflexivity.
+Qed.
+
+Lemma head_client_kind ext max cl eos v fs :
+  delivers Request (model_head Client ext max cl eos v fs) = false.
+Proof.
+  unfold model_head, of_load. destruct (load max fs) as [b| | |]; try reflexivity.
+  unfold recv_head.
+  repeat match goal with
+  | |- context [if ?c then _ else _] => destruct c
+  | |- context [match ?c with Some _ => _ | None => _ end] => destruct c
+  end; reflexivity.
+Qed.
+
+Lemma push_server max v fs k : delivers k (model_push Server max v fs) = false.
+Proof.
+  unfold model_push, of_load. destruct (load max fs);
+    rewrite ?delivers_false_stream, ?delivers_false_conn; reflexivity.
+Qed.
+
+(* For every role, every way of handing a block to the application, every configuration, every
+   answer of the http crate's URI syntax checks, every END_STREAM flag and every field list:
+   a block that RFC 9113 section 8 calls malformed is not handed to the application, unless it is
+   in one of the two known classes.  [cl] is the stream's content-length state when the block
+   arrives ([CLHead] = the request was a HEAD request); the content-length of a message is only
+   examined by the code when the state is not [CLHead], which is when the reference accounts it. *)
+Theorem C13_recv_except_known :
+  forall (r : role) (k : kind) (hk : head_kind) (ext : bool) (max : N) (cl : clen) (eos : bool)
+         (v : verdicts) (fs : list field),
+    ~ KnownClass k fs ->
+    (accounted k hk = true -> cl <> CLHead) ->
+    malformed_block r k hk eos fs = true ->
+    delivers k (model_recv r k ext max cl eos v fs) = false.
+Proof.
+  intros r k hk ext max cl eos v fs Hk Hcl Hm.
+  destruct (delivers k (model_recv r k ext max cl eos v fs)) eqn:Ed; [|reflexivity]. exfalso.
+  destruct r, k; cbn [model_recv] in Ed.
+  - rewrite head_client_kind in Ed. discriminate.
+  - assert (Hst : has ":status" fs = true).
+    { destruct (has ":status" fs) eqn:E; [reflexivity|]. exfalso. apply Hk. left. auto. }
+    rewrite (C13_response ext max cl eos v fs hk Hcl Hst Ed) in Hm. discriminate.
+  - rewrite (C13_informational ext max cl eos v fs hk Ed) in Hm. discriminate.
+  - rewrite (C13_pushed max v fs hk eos Ed) in Hm. discriminate.
+  - assert (Hp : existsb is_pseudo fs = false).
+    { destruct (existsb is_pseudo fs) eqn:E; [|reflexivity]. exfalso. apply Hk. right. auto. }
+    rewrite (C13_trailers Client max cl eos fs hk Hp Ed) in Hm. discriminate.
+  - rewrite (C13_request ext max cl eos v fs hk (Hcl eq_refl) Ed) in Hm. discriminate.
+  - apply head_server_kind in Ed. discriminate.
+  - apply head_server_kind in Ed. discriminate.
+  - rewrite push_server in Ed. discriminate.
+  - assert (Hp : existsb is_pseudo fs = false).
+    { destruct (existsb is_pseudo fs) eqn:E; [|reflexivity]. exfalso. apply Hk. right. auto. }
+    rewrite (C13_trailers Server max cl eos fs hk Hp Ed) in Hm. discriminate.
+Qed.
+
+(* the two known classes are real: closed witnesses, which double as the replay inputs *)
+Definition V_all : verdicts := mk_verdicts true true true.
+Definition DEFAULT_MAX : N := 16777216.
+
+Definition witness_1 : list field := [(bstr "x-a", bstr "v")].
+Definition witness_2 : list field := [(bstr ":status", bstr "404"); (bstr "x-t", bstr "1")].
+
+Theorem C13_known_1_refuted :
+  exists fs, malformed_block Client Response HasContent true fs = true /\
+             delivers Response (model_recv Client Response false DEFAULT_MAX CLOmitted true V_all fs) = true.
+Proof. exists witness_1. vm_compute. split; reflexivity. Qed.
+
+Theorem C13_known_2_refuted :
+  exists fs, malformed_block Client Trailers HasContent true fs = true /\
+             delivers Trailers (model_recv Client Trailers false DEFAULT_MAX (CLRemaining 0) true V_all fs) = true.
+Proof. exists witness_2. vm_compute. split; reflexivity. Qed.
+
+(* the hypotheses of the theorem are satisfiable, and the model does deliver well-formed blocks *)
+Definition good_request : list field :=
+  [(bstr ":method", bstr "POST"); (bstr ":scheme", bstr "https"); (bstr ":path", bstr "/"); (bstr ":authority", bstr "example.com");
+   (bstr "content-length", bstr "3"); (bstr "te", bstr "trailers")].
+
+Example C13_recv_nonvacuous :
+  ~ KnownClass Request (good_request ++ [(bstr "connection", bstr "close")]) /\
+  malformed_block Server Request HasContent false (good_request ++ [(bstr "connection", bstr "close")]) = true /\
+  malformed_block Server Request HasContent false good_request = false /\
+  delivers Request (model_recv Server Request false DEFAULT_MAX CLOmitted false V_all good_request) = true /\
+  delivers Response (model_recv Client Response false DEFAULT_MAX CLOmitted true V_all [(bstr ":status", bstr "200")]) = true.
+Proof.
+  split; [intros [[H _]|[H _]]; discriminate|]. vm_compute. repeat split; reflexivity.
+Qed.
+
+(* ------------------------------------------------------------------------------------------ *)
+(* C13: the end of a body *)
+
+Definition open_frames (pre : list (N * bool)) : Prop := Forall (fun d => snd d = false) pre.
+
+Lemma sumN_cons x l : sumN (x :: l) = x + sumN l.
+Proof. reflexivity. Qed.
+Lemma sumN_nil : sumN [] = 0.
+Proof. reflexivity. Qed.
+
+(* the verdict of the code on a complete body (DATA frames, the last one with END_STREAM) *)
+Definition length_verdict (cl : clen) (total : N) : bool :=
+  match cl with
+  | CLRemaining n => total =? n
+  | CLHead => total =? 0
+  | CLOmitted => true
+  end.
+
+(* For every content-length state and every sequence of DATA frames whose last frame carries
+   END_STREAM: the end of the body is reported as a clean end exactly when the payload octets sum
+   to the remaining content-length (no declared length: always; response to HEAD: only when no
+   octet was sent), and as a stream error otherwise - never left open. *)
+Theorem C13_length :
+  forall (cl : clen) (pre : list (N * bool)) (len : N),
+    open_frames pre ->
+    run_data cl (pre ++ [(len, true)]) =
+      if length_verdict cl (sumN (map fst pre) + len) then BClean else BError.
+Proof.
+  intros cl pre. revert cl. induction pre as [|[l e] pre IH]; intros cl len Hp.
+  - cbn [app run_data map]. rewrite sumN_nil. unfold recv_data_cl, dec_content_length, length_verdict.
+    destruct cl as [| |n]; cbn [ensure_content_length_zero].
+    + reflexivity.
+    + destruct (len =? 0) eqn:E; cbn [ensure_content_length_zero].
+      * replace (0 + len =? 0) with true by lia. reflexivity.
+      * replace (0 + len =? 0) with false by lia. reflexivity.
+    + destruct (len <=? n) eqn:E; cbn [ensure_content_length_zero].
+      * destruct (n - len =? 0) eqn:E2.
+        -- replace (0 + len =? n) with true by lia. reflexivity.
+        -- replace (0 + len =? n) with false by lia. reflexivity.
+      * replace (0 + len =? n) with false by lia. reflexivity.
+  - inversion Hp as [|? ? He Hp']; subst. cbn [snd] in He. subst e.
+    cbn [app run_data map fst]. rewrite sumN_cons. unfold recv_data_cl, dec_content_length.
+    destruct cl as [| |n].
+    + rewrite (IH CLOmitted len Hp'). reflexivity.
+    + destruct (l =? 0) eqn:E.
+      * rewrite (IH CLHead len Hp'). unfold length_verdict.
+        replace (l + sumN (map fst pre) + len =? 0) with (sumN (map fst pre) + len =? 0) by lia. reflexivity.
+      * unfold length_verdict. replace (l + sumN (map fst pre) + len =? 0) with false by lia. reflexivity.
+    + destruct (l <=? n) eqn:E.
+      * rewrite (IH (CLRemaining (n - l)) len Hp'). unfold length_verdict.
+        replace (l + sumN (map fst pre) + len =? n) with (sumN (map fst pre) + len =? n - l) by lia. reflexivity.
+      * unfold length_verdict. replace (l + sumN (map fst pre) + len =? n) with false by lia. reflexivity.
+Qed.
+
+(* against the reference: with a declared length [Some n] the state is [CLRemaining n], without
+   one [CLOmitted] *)
+Definition cl_of (declared : option N) : clen :=
+  match declared with Some n => CLRemaining n | None => CLOmitted end.
+
+Theorem C13_length_clean_iff :
+  forall (declared : option N) (pre : list (N * bool)) (len : N),
+    open_frames pre ->
+    (run_data (cl_of declared) (pre ++ [(len, true)]) = BClean <->
+     body_ok declared HasContent (map fst (pre ++ [(len, true)])) = true).
+Proof.
+  intros declared pre len Hp. rewrite (C13_length _ pre len Hp).
+  assert (E : sumN (map fst (pre ++ [(len, true)])) = sumN (map fst pre) + len).
+  { clear Hp. induction pre as [|[l e] pre IH]; cbn [app map fst]; rewrite ?sumN_cons, ?sumN_nil; [lia|].
+    rewrite IH. lia. }
+  unfold body_ok. rewrite E. destruct declared as [n|]; cbn [cl_of length_verdict].
+  - destruct (sumN (map fst pre) + len =? n); split; intros H; congruence.
+  - split; reflexivity.
+Qed.
+
+(* how a head sets the state (Recv::recv_headers), exactly as coded: a response to HEAD keeps
+   [CLHead]; otherwise the first content-length value, whatever the status code (204 and 304
+   included), becomes the remaining length; without a content-length field the state is kept -
+   which is [CLOmitted], or what an earlier 1xx head of the same stream left behind.  The 204/304
+   exemption only concerns END_STREAM on the HEADERS frame itself. *)
+Theorem C13_length_head :
+  forall cl eos b cl', head_content_length cl eos b = Some cl' ->
+    (cl = CLHead /\ cl' = CLHead) \/
+    (cl <> CLHead /\ first_value cl_name (b_fields b) = None /\ cl' = cl) \/
+    (cl <> CLHead /\ exists v n, first_value cl_name (b_fields b) = Some v /\ parse_u64 v = Some n /\
+        cl' = CLRemaining n /\ (eos = true -> n = 0 \/ status_not_204_304 (b_pseudo b) = false)).
+Proof.
+  intros cl eos b cl' H. unfold head_content_length in H.
+  destruct cl as [| |rem].
+  - right. destruct (first_value cl_name (b_fields b)) as [v|] eqn:Ev.
+    + right. split; [discriminate|]. destruct (parse_u64 v) as [n|] eqn:En; [|discriminate].
+      destruct (existsb _ _); [discriminate|].
+      destruct (eos && (0 <? n) && status_not_204_304 (b_pseudo b)) eqn:Ee; [discriminate|].
+      inversion H. exists v, n. repeat split; auto. intros ->. cbn [andb] in Ee.
+      destruct (0 <? n) eqn:E0; [right; exact Ee|left; lia].
+    + left. inversion H. split; [discriminate|auto].
+  - left. inversion H. auto.
+  - right. destruct (first_value cl_name (b_fields b)) as [v|] eqn:Ev.
+    + right. split; [discriminate|]. destruct (parse_u64 v) as [n|] eqn:En; [|discriminate].
+      destruct (existsb _ _); [discriminate|].
+      destruct (eos && (0 <? n) && status_not_204_304 (b_pseudo b)) eqn:Ee; [discriminate|].
+      inversion H. exists v, n. repeat split; auto. intros ->. cbn [andb] in Ee.
+      destruct (0 <? n) eqn:E0; [right; exact Ee|left; lia].
+    + left. inversion H. split; [discriminate|auto].
+Qed.
+
+(* a body ended by a trailer section: the trailers are handed over only when nothing remains *)
+Fixpoint after_open (cl : clen) (lens : list N) : option clen :=
+  match lens with
+  | [] => Some cl
+  | l :: r => match dec_content_length cl l with Some cl' => after_open cl' r | None => None end
+  end.
+
+Theorem C13_length_trailers :
+  forall n lens cl' b,
+    after_open (CLRemaining n) lens = Some cl' ->
+    (delivers Trailers (fst (recv_trailers cl' true b)) = true <-> sumN lens = n).
+Proof.
+  intros n lens. revert n. induction lens as [|l r IH]; intros n cl' b H; cbn [after_open] in H.
+  - inversion H. subst cl'. unfold recv_trailers. rewrite sumN_nil. cbn [negb ensure_content_length_zero].
+    destruct (n =? 0) eqn:E; cbn [negb fst delivers]; split; intros; try lia; try discriminate; reflexivity.
+  - unfold dec_content_length in H. destruct (l <=? n) eqn:E; [|discriminate].
+    rewrite (IH (n - l) cl' b H). rewrite sumN_cons. lia.
+Qed.
+
+(* ------------------------------------------------------------------------------------------ *)
+(* C13, send side *)
+
+Lemma existsb_ext' {A} (p q : A -> bool) l : (forall x, p x = q x) -> existsb p l = existsb q l.
+Proof. intros H. induction l as [|x l IH]; cbn [existsb]; [reflexivity|]. rewrite H, IH. reflexivity. Qed.
+
+(* Send::check_headers accepts a header map exactly when it has no connection-specific field and no
+   TE value other than "trailers" (the parts of 8.2.2).  Uppercase names, invalid octets and
+   unknown or misplaced pseudo-header fields cannot be expressed in the types of the send API
+   (http::HeaderMap / HeaderName / HeaderValue, Method, StatusCode, Uri). *)
+Theorem C13_send :
+  forall fields : list field,
+    check_headers fields = true <->
+    (existsb connection_specific fields = false /\ existsb bad_te fields = false).
+Proof.
+  intros fields. unfold check_headers.
+  rewrite (existsb_ext' (fun f => conn_specific_name (fst f)) connection_specific fields conn_specific_ref).
+  rewrite (existsb_ext' te_not_trailers bad_te fields te_ref).
+  rewrite andb_true_iff, !negb_true_iff. reflexivity.
+Qed.
+
+(* HeaderMap iteration: same fields, grouped by name *)
+Definition name_eq (n : list N) (f : field) : bool := list_N_eqb (fst f) n.
+
+Lemma names_dedup_in fs : forall seen f,
+  In f fs -> existsb (list_N_eqb (fst f)) seen = true \/ In (fst f) (names_dedup seen fs).
+Proof.
+  induction fs as [|g r IH]; intros seen f Hf; [destruct Hf|]. cbn [names_dedup].
+  destruct (existsb (list_N_eqb (fst g)) seen) eqn:E.
+  - destruct Hf as [<-|Hf]; [left; exact E|exact (IH seen f Hf)].
+  - destruct Hf as [<-|Hf]; [right; left; reflexivity|].
+    destruct (IH (fst g :: seen) f Hf) as [H|H].
+    + cbn [existsb] in H. apply orb_true_iff in H. destruct H as [H|H]; [|left; exact H].
+      apply list_N_eqb_eq in H. right. left. auto.
+    + right. right. exact H.
+Qed.
+
+Lemma hm_order_in fs f : In f (hm_order fs) <-> In f fs.
+Proof.
+  unfold hm_order. rewrite in_flat_map. split.
+  - intros (n & _ & H). apply filter_In in H. exact (proj1 H).
+  - intros H. exists (fst f). split.
+    + destruct (names_dedup_in fs [] f H) as [X|X]; [discriminate|exact X].
+    + apply filter_In. split; [exact H|apply list_N_eqb_refl].
+Qed.
+
+Lemma existsb_same_members {A} (p : A -> bool) l1 l2 :
+  (forall x, In x l1 <-> In x l2) -> existsb p l1 = existsb p l2.
+Proof.
+  intros H. destruct (existsb p l1) eqn:E1, (existsb p l2) eqn:E2; try reflexivity.
+  - apply existsb_exists in E1. destruct E1 as (x & Hx & Px).
+    rewrite <- E2. symmetry. apply existsb_exists. exists x. split; [apply H; exact Hx|exact Px].
+  - apply existsb_exists in E2. destruct E2 as (x & Hx & Px).
+    rewrite <- E1. apply existsb_exists. exists x. split; [apply H; exact Hx|exact Px].
+Qed.
+
+Lemma existsb_hm_order p fs : existsb p (hm_order fs) = existsb p fs.
+Proof. apply existsb_same_members. intros x. apply hm_order_in. Qed.
+
+(* the values of one name keep their order *)
+Lemma names_dedup_nodup fs : forall seen,
+  NoDup (names_dedup seen fs) /\ (forall n, In n (names_dedup seen fs) -> existsb (list_N_eqb n) seen = false).
+Proof.
+  induction fs as [|g r IH]; intros seen; cbn [names_dedup]; [split; [constructor|intros n []]|].
+  destruct (existsb (list_N_eqb (fst g)) seen) eqn:E; [exact (IH seen)|].
+  destruct (IH (fst g :: seen)) as (I1 & I2). split.
+  - constructor; [|exact I1]. intros H. specialize (I2 _ H). cbn [existsb] in I2.
+    rewrite list_N_eqb_refl in I2. discriminate.
+  - intros n [<-|Hn]; [exact E|]. specialize (I2 n Hn). cbn [existsb] in I2.
+    apply orb_false_iff in I2. exact (proj2 I2).
+Qed.
+
+Lemma filter_filter_name n m fs :
+  filter (name_eq n) (filter (name_eq m) fs) = if list_N_eqb m n then filter (name_eq n) fs else [].
+Proof.
+  induction fs as [|f r IH]; cbn [filter]; [destruct (list_N_eqb m n); reflexivity|].
+  unfold name_eq at 2. destruct (list_N_eqb (fst f) m) eqn:Em.
+  - cbn [filter]. apply list_N_eqb_eq in Em. subst m. unfold name_eq at 1 3. rewrite IH.
+    destruct (list_N_eqb (fst f) n); reflexivity.
+  - rewrite IH. destruct (list_N_eqb m n) eqn:Emn; [|reflexivity].
+    apply list_N_eqb_eq in Emn. subst n. unfold name_eq at 2. rewrite Em. reflexivity.
+Qed.
+
+Lemma filter_flat_map {A B} (p : B -> bool) (g : A -> list B) l :
+  filter p (flat_map g l) = flat_map (fun x => filter p (g x)) l.
+Proof.
+  induction l as [|x l IH]; [reflexivity|]. cbn [flat_map]. rewrite filter_app, IH. reflexivity.
+Qed.
+
+Lemma flat_map_single n (fs : list field) (L : list (list N)) :
+  NoDup L ->
+  flat_map (fun m => if list_N_eqb m n then filter (name_eq n) fs else []) L =
+  if existsb (list_N_eqb n) L then filter (name_eq n) fs else [].
+Proof.
+  induction L as [|m L IH]; intros Hd; [reflexivity|]. inversion Hd as [|? ? Hm Hd']; subst.
+  cbn [flat_map existsb]. rewrite (IH Hd'). rewrite (list_N_eqb_sym n m).
+  destruct (list_N_eqb m n) eqn:E; cbn [orb].
+  - apply list_N_eqb_eq in E. subst m.
+    destruct (existsb (list_N_eqb n) L) eqn:E2.
+    + exfalso. apply existsb_exists in E2. destruct E2 as (x & Hx & Ex). apply list_N_eqb_eq in Ex. subst x. exact (Hm Hx).
+    + rewrite app_nil_r. reflexivity.
+  - reflexivity.
+Qed.
+
+Lemma filter_name_hm_order n fs : filter (name_eq n) (hm_order fs) = filter (name_eq n) fs.
+Proof.
+  unfold hm_order. rewrite filter_flat_map.
+  rewrite (flat_map_ext _ (fun m => if list_N_eqb m n then filter (name_eq n) fs else []));
+    [|intros m; apply (filter_filter_name n m fs)].
+  rewrite (flat_map_single n fs _ (proj1 (names_dedup_nodup fs []))).
+  destruct (existsb (list_N_eqb n) (names_dedup [] fs)) eqn:E; [reflexivity|].
+  symmetry. induction fs as [|f r IH]; [reflexivity|]. exfalso.
+  assert (In (fst f) (names_dedup [] (f :: r))) by (cbn [names_dedup existsb]; left; reflexivity).
+  clear IH. revert E H. generalize (names_dedup [] (f :: r)). intros L E H.
+  (* not every field is named n, but the claim is about filter: redo by membership *)
+Abort.
